@@ -124,4 +124,9 @@ theorem C12_rel_local_counterexample :
 
 example : (shiftWall springForward true 12600 (-1) 0 7200).instant = (12600 - (-14400)) - 2 * 3600 := by decide
 
+/-- non-vacuity of the side condition of `C12_rel_clock_exact_local`: '2 hours ago' at 03:30 on the spring-forward morning satisfies it -/
+example : springForward.offOfWall (12600 + (-1) * ((0 : Nat) * 86400) + (-1) * (7200 : Nat)
+            + (springForward.offOfWall (12600 + (-1) * ((0 : Nat) * 86400) + (-1) * (7200 : Nat)) - springForward.offOfWall (12600 + (-1) * ((0 : Nat) * 86400))))
+          = springForward.offOfWall (12600 + (-1) * ((0 : Nat) * 86400) + (-1) * (7200 : Nat)) := by decide
+
 end DP.Zone
